@@ -100,7 +100,7 @@ def tlc(module, cfg, scratch, workers=1, env=None, timeout=600, simulate=None, d
     meta = tempfile.mkdtemp(prefix="meta_", dir=scratch.path)
     # same as the `tlc` wrapper on PATH, plus a deep stack for RECURSIVE operators (the launcher only honours
     # -Xss for the main thread when it is on the command line)
-    cmd = ["java", "-Xss512m", "-XX:+UseParallelGC", "-cp",
+    cmd = ["java", "-Xss512m", "-XX:+UseParallelGC", "-Djava.io.tmpdir=%s" % meta, "-cp",
            "/opt/veriftools/tla/tla2tools.jar:/opt/veriftools/tla/CommunityModules-deps.jar", "tlc2.TLC"]
     e = dict(os.environ)
     if deque:
